@@ -22,6 +22,16 @@ set_option linter.unusedVariables false
 namespace Lomond.C09Connect
 open Lomond Lomond.Http Lomond.Core Lomond.Core.Monitor Lomond.Proxy Lomond.Connect Lomond.ConnectLink
 
+/-- the inputs of `proxy_socket_left_open_witness`: `ws://example.com:8080` through `http://Proxy.example:3128`, first
+    address of the proxy refused, second connects, the proxy answers `HTTP/1.1 407 No`; the pinned code shape -/
+def d11Witness : Inputs :=
+  { ws := { target := { host := some (ofString "example.com"), port := 8080, secure := false }
+            proxyHttp := some (ofString "http://Proxy.example:3128"), proxyHttps := none
+            request := [71, 69, 84] }
+    gai := some [.connectFail, .ok], writeFails := fun _ => false
+    reads := [.data [72, 84, 84, 80, 47, 49, 46, 49, 32, 52, 48, 55, 32, 78, 111, 13, 10, 13, 10]]
+    wrapOk := true, selOk := true, pclose := false }
+
 /-- **The connect outcome of a direct connection is the verdict of the address loop.**  Without a proxy:
     `_connect()` raises `_SocketFail` (outcome `socketFail`, which `run()` turns into `ConnectFail`)
     exactly when the name does not resolve or no resolved address connects; it never fails in any other
@@ -232,6 +242,120 @@ theorem socket_closed_at_terminal_linked (base : Core.Cfg) (i : Inputs) (react :
   | false =>
     rw [hsel] at ho
     exact C09.socket_closed_at_terminal_selector_failure _ react env q.isSome ho post pre e ht hterm
+
+/-! ### finding D11: every socket that was connected is closed before `ConnectFail` is delivered -/
+
+/-- **"… it produces ConnectFail before the connection is up … and the socket is closed" — over the
+    composed trace, for the repaired shape of `_connect_proxy`** (`i.pclose = true`).  For every input — proxy or
+    not, whatever fails and where —: when `ConnectFail` is delivered, every socket on which the connection
+    phase had called `connect()` (the candidates of the address loop, in particular the one that connected — to
+    the proxy or to the target) has been closed before that event: inside `_connect()` (`Item.sock (.close j)`:
+    by the address loop when its `connect()` failed, by `_connect_proxy` when the tunnel fails after the TCP
+    connect — a non-200 reply, a `recv` error / timeout / end of stream, an oversized reply, a failing CONNECT
+    `sendall`, a failing TLS wrap, a target URL without host), or by the session (`sockClose`) when `_connect()`
+    had returned it and the upgrade request could not be written. -/
+theorem composed_fail_closes_socket (base : Core.Cfg) (i : Inputs) (react : React) (env : List EnvStep)
+    (hp : i.pclose = true) (j : Nat) (pre post : List Item) (r : String)
+    (hsplit : composed base i react env = pre ++ .core (.ev (.connectFail r)) :: post)
+    (hconn : Item.sock (.connect j) ∈ pre) :
+    Item.sock (.close j) ∈ pre ∨ Item.core .sockClose ∈ pre := by
+  have hx : isCF (.core (.ev (.connectFail r))) = true := rfl
+  have hsh := composed_shape base i react env
+  have hev := evs_composed base i react env
+  rw [hsplit] at hsh hev
+  generalize hL : pre ++ Item.core (.ev (.connectFail r)) :: post = L at hsh
+  cases hsh with
+  | abandoned c0 n0 _ =>
+    exfalso
+    have : Item.core (.ev (.connectFail r)) ∈ (Obs.ev .connecting :: c0).map Item.core := by rw [← hL]; simp
+    rw [List.map_cons] at this
+    rcases List.mem_cons.mp this with h | h
+    · cases h
+    · have := isCF_res n0 _ h; rw [hx] at this; cases this
+  | failed c0 c1 n0 n1 _ hnc =>
+    obtain ⟨r', hr', _⟩ := prefix_of_split isCF (a := (Obs.ev .connecting :: c0).map Item.core ++ phaseItems i)
+      hL hx (isCF_head i n0)
+    have hpre : ∀ z ∈ phaseItems i, z ∈ pre := by
+      intro z hz; rw [hr']; exact List.mem_append_left _ (List.mem_append_right _ hz)
+    -- the connect() call is one of the address loop's
+    have hin : Item.sock (.connect j) ∈ phaseItems i := by
+      have h1 : Item.sock (.connect j) ∈ (Obs.ev .connecting :: c0).map Item.core ++ phaseItems i ++
+          (Obs.ev (.connectFail "connect-failed") :: c1).map Item.core := by
+        rw [← hL]; exact List.mem_append_left _ hconn
+      rcases List.mem_append.mp h1 with h | h
+      · rcases List.mem_append.mp h with h | h
+        · obtain ⟨o, _, ho⟩ := List.mem_map.mp h; cases ho
+        · exact h
+      · obtain ⟨o, _, ho⟩ := List.mem_map.mp h; cases ho
+    left
+    rcases mem_phaseItems_sock i _ hin with ⟨hcall, hne⟩ | hcl
+    · rcases connectSock_connect i.gai j hcall with hclose | hwin
+      · -- its connect() failed: the loop closed it
+        exact hpre _ (calls_in_phaseItems i _ hclose hne)
+      · -- it is the socket `_connect_sock` returned: `_connect_proxy` closes it when the tunnel fails
+        apply hpre
+        unfold phaseItems
+        refine List.mem_append_right _ ?_
+        rw [closeItems_fail i hnc j hwin, hp, hne]
+        simp
+    · -- (a close is not a connect)
+      rcases closeItems_cases i with h | ⟨k, h⟩ <;> rw [h] at hcl <;> simp at hcl
+  | refused q c0 c1 n0 n1 _ _ _ =>
+    right
+    have hno : ∀ z ∈ ((Obs.ev .connecting :: c0).map Item.core ++ phaseItems i) ++ [Item.core .sockClose], isCF z = false := by
+      intro z hz
+      rcases List.mem_append.mp hz with h | h
+      · exact isCF_head i n0 z h
+      · simp only [List.mem_singleton] at h; subst h; rfl
+    obtain ⟨r', hr', _⟩ := prefix_of_split isCF
+      (a := ((Obs.ev .connecting :: c0).map Item.core ++ phaseItems i) ++ [Item.core .sockClose])
+      (b := (Obs.ev (.connectFail "request-failed") :: c1).map Item.core)
+      (hL.trans (by simp)) hx hno
+    rw [hr']; simp
+  | writeFailed q c0 c1 n0 n1 _ _ _ =>
+    right
+    have hno : ∀ z ∈ ((Obs.ev .connecting :: c0).map Item.core ++ phaseItems i) ++
+        [Item.core (.wrFail i.ws.request), Item.core .sockClose], isCF z = false := by
+      intro z hz
+      rcases List.mem_append.mp hz with h | h
+      · exact isCF_head i n0 z h
+      · simp only [List.mem_cons, List.not_mem_nil, or_false] at h
+        rcases h with rfl | rfl <;> rfl
+    obtain ⟨r', hr', _⟩ := prefix_of_split isCF
+      (a := ((Obs.ev .connecting :: c0).map Item.core ++ phaseItems i) ++
+        [Item.core (.wrFail i.ws.request), Item.core .sockClose])
+      (b := (Obs.ev (.connectFail "request-failed") :: c1).map Item.core)
+      (hL.trans (by simp)) hx hno
+    rw [hr']; simp
+  | connected q c0 X n0 _ _ _ =>
+    -- `Connected` was yielded: no `ConnectFail` can follow (C09.terminal_kind_connectFail)
+    exfalso
+    have hm := C09.terminal_kind_connectFail (coreCfg base i) react env
+    have e1 := evs_split pre post (.connectFail r)
+    have e2 : evs (pre ++ Item.core (.ev (.connectFail r)) :: post) =
+        .connecting :: .connected q.isSome :: X.filterMap Obs.event? := by
+      rw [hL]
+      unfold evs
+      rw [coreLog_append, coreLog_append, coreLog_core, coreLog_core, coreLog_phaseItems]
+      simp [List.filterMap_cons, event?_wr, event?_ev, events_res n0]
+    have hpos := hm (evs pre) (evs post) r (by
+      show events (runAll (coreCfg base i) react env).trace = _
+      rw [← hev, e1])
+    rw [e1, hpos.2.1] at e2
+    simp at e2
+
+/-- **The pinned shape (`pclose = false`) leaves the proxy socket open: witness.**  A `ws://` connection through
+    a proxy whose second address connects and which answers 407: `ConnectFail` is delivered, `connect()` had
+    succeeded on socket 1, and nothing in the whole trace closes that socket — neither `_connect()` nor the
+    session.  (With `pclose = true` the same inputs give `close 1` right before `ConnectFail`.) -/
+theorem proxy_socket_left_open_witness :
+    ∃ (i : Inputs) (pre post : List Item), i.pclose = false ∧
+      composed {} i (fun _ => []) [] = pre ++ .core (.ev (.connectFail "connect-failed")) :: post ∧
+      Item.sock (.connect 1) ∈ pre ∧ (Connect.connectSock i.gai).1 = .sock 1 ∧
+      Item.sock (.close 1) ∉ composed {} i (fun _ => []) [] ∧ Item.core .sockClose ∉ composed {} i (fun _ => []) [] ∧
+      Item.sock (.close 1) ∈ composed {} { i with pclose := true } (fun _ => []) [] := by
+  refine ⟨d11Witness, (composed {} d11Witness (fun _ => []) []).take 9, [], rfl, ?_, ?_, ?_, ?_, ?_, ?_⟩ <;>
+    decide +kernel
 
 /-! ### Non-vacuity -/
 
